@@ -19,13 +19,14 @@ def sortedB (nw : Network) (nodes : List Nat) : Bool :=
 def inner (nodes : List Nat) : List Nat := (nodes.drop 1).take (nodes.length - 2)
 
 /-- C10: a real tour starts at a start depot, ends at an end depot, has at least one activity and
-    only activities in between, and is a chronological path; a dummy tour is a non-empty
-    chronological path without depots (the public API can put maintenance slots into a dummy
-    tour through `add_path_to_vehicle_tour`, so only depots are excluded). -/
+    only activities in between, and is a chronological path of connectable nodes. A dummy tour is
+    a non-empty chronological sequence without depots: `Tour::new_dummy` keeps only the service
+    trips of a path, so its consecutive nodes need not be directly connectable (reachability is
+    not transitive: a→m→b does not imply a→b), and the public API can add maintenance slots to a
+    dummy through `add_path_to_vehicle_tour`. -/
 def tourValidB (nw : Network) (t : Tour) : Bool :=
   if t.isDummy then
-    !t.nodes.isEmpty && t.nodes.all (fun n => isActivity (nw.node n)) && chainB nw t.nodes
-      && sortedB nw t.nodes
+    !t.nodes.isEmpty && t.nodes.all (fun n => isActivity (nw.node n)) && sortedB nw t.nodes
   else
     t.nodes.length ≥ 3
       && (nw.node (t.nodes.headD 0)).isStartDepot
